@@ -136,6 +136,23 @@ func (w *World) doAssert(id string, c Val) {
 		r, m := w.s.model("(not "+cv.t+")", w.inputs)
 		switch r {
 		case "sat":
+			if w.floatRounding {
+				// prefer a counterexample that does not sit on the edge of the rounding-error model: ask again
+				// with every error term confined to a quarter of its bound; fall back to the first model
+				var c []string
+				for d := range w.declared {
+					if strings.HasPrefix(d, "fpd_") {
+						c = append(c, fmt.Sprintf("(<= (- (/ 1.0 36028797018963968.0)) %s) (<= %s (/ 1.0 36028797018963968.0))", d, d))
+					}
+				}
+				if len(c) > 0 {
+					unk := w.s.unknown
+					if r2, m2 := w.s.model("(and (not "+cv.t+") "+strings.Join(c, " ")+")", w.inputs); r2 == "sat" {
+						m = m2
+					}
+					w.s.unknown = unk
+				}
+			}
 			w.violate(id, "", m)
 		case "unknown":
 			w.inconclusive = "solver unknown on assertion " + id
